@@ -35,3 +35,117 @@ NODE_FROM_RESID = REG.add(Contract(
     props=("C01",)))
 
 CONTRACTS = [NODE_FROM_RESID]
+
+
+# ---- static frame obligation for apply_mod -----------------------------------------------------------------------------------------
+def lemma_mod_frame(ctx):
+    """C01, last sentence ('a modification changes nothing but the atoms it names in its target residue'), as far as the structure of
+    apply_mod decides it -- obligations over the real AST, in the style of the ownership obligations of C13:
+      F1  the only statements of apply_mod that store into an object reachable from its arguments are of the form
+          molecule.nodes[n][key] = value;
+      F2  each of them lies in a loop `for n in target_residue['graph'].nodes` (n ranges over the atoms of the target residue) ...
+      F3  ... under a guard `aname in mod_atoms.keys()` where aname was read from molecule.nodes[n]['atomname'] in that iteration
+          (n carries a name the modification lists) ...
+      F4  ... inside a loop over `mod_atoms[aname].items()` that supplies key and value (only what the modification's `replace` says);
+      F5  target_residue is the residue found by the residue id of the target (through _node_from_resid, proved above), and mod_atoms
+          is filled from the atoms of the desired modification only;
+      F6  the only other calls that can change the molecule are molecule.add_interaction (vermouth: appends an interaction, no atom
+          changes; assumed effect contract) -- no deletion, update, pop, setdefault, clear or node/edge removal anywhere in the function."""
+    import ast
+    from pyvc import source
+    from pyvc.types import Unsupported
+    mod = source.load("polyply.src.apply_modifications")
+    fn = mod.functions.get("apply_mod")
+    if fn is None:
+        raise Unsupported("apply_mod not found (stale contract)")
+    parents = {}
+    for p in ast.walk(fn):
+        for ch in ast.iter_child_nodes(p):
+            parents[id(ch)] = p
+
+    def ancestors(n):
+        while id(n) in parents:
+            n = parents[id(n)]
+            yield n
+    params = {a.arg for a in fn.args.args}
+    # local names bound (directly) to objects reachable from the arguments
+    reach = set(params)
+    for _ in range(4):
+        for n in ast.walk(fn):
+            if isinstance(n, ast.Assign) and len(n.targets) == 1 and isinstance(n.targets[0], ast.Name):
+                roots = {x.id for x in ast.walk(n.value) if isinstance(x, ast.Name)}
+                if roots & reach and not isinstance(n.value, (ast.Dict, ast.Constant, ast.BinOp)):
+                    reach.add(n.targets[0].id)
+
+    def root(e):
+        while isinstance(e, (ast.Subscript, ast.Attribute)):
+            e = e.value
+        return e.id if isinstance(e, ast.Name) else None
+    local_dicts = {n.targets[0].id for n in ast.walk(fn) if isinstance(n, ast.Assign) and len(n.targets) == 1 and isinstance(n.targets[0], ast.Name)
+                   and isinstance(n.value, ast.Dict) and not n.value.keys}       # dictionaries made inside the function (x = {}): not the arguments' state
+    reach -= local_dicts
+    stores = [n for n in ast.walk(fn) if isinstance(n, (ast.Assign, ast.AugAssign))
+              for t in (n.targets if isinstance(n, ast.Assign) else [n.target]) if isinstance(t, (ast.Subscript, ast.Attribute)) and root(t) in reach]
+    good = []
+    tres_names, tables = set(), set()
+    for st in stores:
+        t = st.targets[0] if isinstance(st, ast.Assign) else st.target
+        shape = (isinstance(st, ast.Assign) and isinstance(t, ast.Subscript) and isinstance(t.slice, ast.Name) and isinstance(t.value, ast.Subscript)
+                 and isinstance(t.value.slice, ast.Name) and ast.unparse(t.value.value) == "molecule.nodes" and isinstance(st.value, ast.Name))
+        if not shape:
+            good.append((st, False, False, False, False))
+            continue
+        n_name, key_name, val_name = t.value.slice.id, t.slice.id, st.value.id
+        anc = list(ancestors(st))
+        loops = [a for a in anc if isinstance(a, ast.For)]
+        node_loop = next((a for a in loops if isinstance(a.target, ast.Name) and a.target.id == n_name), None)
+        it = ast.unparse(node_loop.iter) if node_loop is not None else ""
+        tres = it.split("[")[0] if it.endswith("['graph'].nodes") or it.endswith("['graph']") else None
+        f2 = tres is not None and tres.isidentifier()
+        tres_names.add(tres)
+        guards = [a for a in anc if isinstance(a, ast.If) and isinstance(a.test, ast.Compare) and len(a.test.ops) == 1 and isinstance(a.test.ops[0], ast.In)
+                  and isinstance(a.test.left, ast.Name) and ast.unparse(a.test.comparators[0]).replace(".keys()", "") in local_dicts and st in ast.walk(ast.Module(body=a.body, type_ignores=[]))]
+        table = ast.unparse(guards[0].test.comparators[0]).replace(".keys()", "") if guards else None
+        tables.add(table)
+        f3 = False
+        aname = guards[0].test.left.id if guards else None
+        if guards and node_loop is not None:
+            binds = [s for s in node_loop.body if isinstance(s, ast.Assign) and len(s.targets) == 1 and isinstance(s.targets[0], ast.Name) and s.targets[0].id == aname]
+            f3 = len(binds) == 1 and ast.unparse(binds[0].value) == f"molecule.nodes[{n_name}]['atomname']" and binds[0].lineno < guards[0].lineno
+        f4 = any(isinstance(a.target, ast.Tuple) and [e.id for e in a.target.elts if isinstance(e, ast.Name)] == [key_name, val_name]
+                 and ast.unparse(a.iter) == f"{table}[{aname}].items()" for a in loops)
+        good.append((st, True, f2, f3, f4))
+    # F5
+    import re
+    tres = next(iter(tres_names)) if len(tres_names) == 1 else None
+    table = next(iter(tables)) if len(tables) == 1 else None
+    tr = [n for n in ast.walk(fn) if isinstance(n, ast.Assign) and len(n.targets) == 1 and isinstance(n.targets[0], ast.Name) and n.targets[0].id == tres]
+    m5 = re.fullmatch(r"meta_molecule\.nodes\[_node_from_resid\(meta_molecule, (\w+)\)\]", ast.unparse(tr[0].value)) if len(tr) == 1 else None
+    f5a = m5 is not None
+    rid = [n for n in ast.walk(fn) if m5 and isinstance(n, ast.Assign) and len(n.targets) == 1 and isinstance(n.targets[0], ast.Name) and n.targets[0].id == m5.group(1)]
+    loop_targets = {e.id for n in fn.body if isinstance(n, ast.For) and isinstance(n.target, ast.Tuple) for e in n.target.elts[:1] if isinstance(e, ast.Name)}
+    f5b = len(rid) == 1 and re.fullmatch(r"(\w+)\['resid'\]", ast.unparse(rid[0].value)) is not None and ast.unparse(rid[0].value).split("[")[0] in loop_targets
+    fills = [n for n in ast.walk(fn) if isinstance(n, ast.Assign) and isinstance(n.targets[0], ast.Subscript) and root(n.targets[0]) == table]
+    mod_names = {e.id for n in fn.body if isinstance(n, ast.For) and isinstance(n.target, ast.Tuple) for e in n.target.elts[1:2] if isinstance(e, ast.Name)}
+
+    def fill_ok(n):
+        key = re.fullmatch(r"(\w+)\['atomname'\]", ast.unparse(n.targets[0].slice))
+        return key is not None and any(isinstance(a, ast.For) and ast.unparse(a.target) == key.group(1)
+                                       and any(ast.unparse(a.iter) == f"molecule.force_field.modifications[{mn}].atoms" for mn in mod_names) for a in ancestors(n))
+    f5c = bool(fills) and all(fill_ok(n) for n in fills)
+    # F6
+    bad_methods = {"update", "pop", "popitem", "setdefault", "clear", "remove_node", "remove_nodes_from", "remove_edge", "remove_edges_from", "add_node", "add_nodes_from",
+                   "add_edge", "add_edges_from", "merge_molecule", "remove_interaction", "__setitem__", "__delitem__"}
+    calls = [n for n in ast.walk(fn) if isinstance(n, ast.Call) and isinstance(n.func, ast.Attribute) and root(n.func) in reach]
+    mutators = [c for c in calls if c.func.attr in bad_methods]
+    dels = [n for n in ast.walk(fn) if isinstance(n, ast.Delete)]
+    others = sorted({c.func.attr for c in calls} - {"items", "keys", "values", "get", "add_interaction", "split", "warning", "info", "nodes"})
+    out = [("apply_mod F1: every store into an object reachable from the arguments has the form molecule.nodes[n][key] = value"
+            + (f"  [line {next(g[0].lineno for g in good if not g[1])}]" if any(not g[1] for g in good) else ""), [], z3.BoolVal(bool(good) and all(g[1] for g in good))),
+           ("apply_mod F2: n ranges over the atoms of the target residue (for n in target_residue['graph'].nodes)", [], z3.BoolVal(bool(good) and all(g[2] for g in good))),
+           ("apply_mod F3: the store is guarded by `aname in mod_atoms` with aname = molecule.nodes[n]['atomname'] read in the same iteration", [], z3.BoolVal(bool(good) and all(g[3] for g in good))),
+           ("apply_mod F4: key and value come from mod_atoms[aname].items() (what the modification's replace entry says)", [], z3.BoolVal(bool(good) and all(g[4] for g in good))),
+           ("apply_mod F5: target_residue is the residue with the target's residue id; mod_atoms is filled from the atoms of the desired modification only", [], z3.BoolVal(f5a and f5b and f5c)),
+           ("apply_mod F6: no deletion and no mutating call other than molecule.add_interaction on objects reachable from the arguments"
+            + (f"  [{[c.func.attr for c in mutators] + others}]" if mutators or others else ""), [], z3.BoolVal(not mutators and not dels and not others))]
+    return out
